@@ -109,3 +109,9 @@ Proof. exact read_full_spec. Qed.
 Print Assumptions C27_read_full_chunk_independent.
 Example C27_read_full_nonvacuous : (length [x00] < 2)%nat.
 Proof. cbn; lia. Qed.
+
+(* the out-of-fuel outcome of the model is unreachable *)
+Theorem C27_model_fuel_suffices :
+  forall body_ok terr orc max s, ~ In DOutOfFuel (read_stream body_ok terr orc max s).
+Proof. exact read_stream_no_fuel. Qed.
+Print Assumptions C27_model_fuel_suffices.
